@@ -300,6 +300,42 @@ func (o *mxOracle) checkSnap(pls map[int]*m3uMedia, bodies map[string]string, ra
 			}
 		}
 	}
+	// ---- C19: constant leading sample duration ⇒ non-final parts are uniform and within 85–100 % of PART-TARGET
+	if r.variant == "ll" && !o.anyWriteErr && o.wellFormed() && r.partMin%1000000 == 0 {
+		if d, ok := o.constLeadingDur(lead); ok {
+			_ = d
+			if p := pls[leadStream]; p != nil {
+				var nonFinal []int64
+				for _, g := range p.segs {
+					for i, pt := range g.parts {
+						if i+1 < len(g.parts) {
+							nonFinal = append(nonFinal, pt.dur)
+						}
+					}
+				}
+				for i, pt := range p.parts { // the open segment: a part is known to be non-final once a later one exists
+					if i+1 < len(p.parts) {
+						nonFinal = append(nonFinal, pt.dur)
+					}
+				}
+				for _, dur := range nonFinal {
+					if dur > p.partTarget {
+						o.failf("C19 non-final part of %d (x10us) exceeds PART-TARGET %d", dur, p.partTarget)
+					}
+					if dur*100 < p.partTarget*85 && dur >= 510 {
+						o.failf("C19 non-final part of %d (x10us) is below 85%% of PART-TARGET %d with a constant leading sample duration", dur, p.partTarget)
+					}
+					if dur != nonFinal[0] && (dur-nonFinal[0] > 1 || nonFinal[0]-dur > 1) {
+						o.failf("C19 non-final parts differ in duration: %d vs %d (x10us) with a constant leading sample duration", nonFinal[0], dur)
+					}
+					if dur*10000+5000 < r.partMin {
+						o.failf("C19 non-final part of %d (x10us) is shorter than PartMinDuration %d ns", dur, r.partMin)
+					}
+				}
+			}
+		}
+	}
+
 	// ---- C04 all streams agree
 	if len(sis) > 1 {
 		a := pls[sis[0]]
@@ -413,6 +449,24 @@ func (o *mxOracle) wellFormed() bool {
 		}
 	}
 	return true
+}
+
+// constLeadingDur: do all accepted units of the leading track written so far have the same spacing?
+func (o *mxOracle) constLeadingDur(lead int) (int64, bool) {
+	w := o.written[lead]
+	if len(w) < 3 {
+		return 0, false
+	}
+	d := w[1].dts - w[0].dts
+	if d <= 0 {
+		return 0, false
+	}
+	for i := 2; i < len(w); i++ {
+		if w[i].dts-w[i-1].dts != d {
+			return 0, false
+		}
+	}
+	return d, true
 }
 
 func (o *mxOracle) accepted(ti int) []orcUnit {
